@@ -202,6 +202,12 @@ def detail_of(ob, at, u, fname):
         if re.search(r"typedef\s[^;{}]*\[[^\]]*[A-Za-z_][^\]]*\]", src):
             return "vm-typedef-size-lazy"
         return ""
+    if ob == "NamesDefinedOnce":
+        dup = [d for d in u.mod["data"] if d["name"] in at]
+        if dup and len(dup) == sum(1 for n in at for d in u.mod["data"] if d["name"] == n) and all(d["thread"] for d in dup) \
+                and not any(f["name"] in at for f in u.mod["funcs"]):
+            return "thread-local-redeclared"
+        return ""
     if ob == "InstrClassOK":
         return ",".join(sorted(at)[:3])
     return ""
@@ -372,6 +378,14 @@ PINNED = [   # the minimal failing input of every known finding (so that the fin
     # arguments of classes w, l, d, s (promoted) and aggregate; the marker is then the FIRST item of the argument list.
     # (Not in WfGen: gcc 12 / clang 14 reject `int f(...)` in C, so the generator's audit could not accept the programs.)
     ("variadic-no-named-parameter", 'typedef __builtin_va_list va_list;\nstruct S { int m; long n; };\nint v0(...);\nint v1(...) { va_list ap; int t; __builtin_va_start(ap); t = __builtin_va_arg(ap, int); __builtin_va_end(ap); return t; }\ndouble v2(...) { return 1.5; }\nint call0(int i, long l, double d, float f, struct S s, int (*fp)(...)) {\n\tint r = v0() + v0(i) + v0(l, d) + v0(d, i, l) + v0(f) + v0(s) + v0(s, i, d) + v1(i, d) + (int)v2(l);\n\tr += fp(i) + fp(d, l) + fp(s, f, i) + fp();\n\treturn r;\n}\n'),
+    # objects that are emitted once however often they are used: __func__ evaluated 0/1/2/3 times (direct, as argument,
+    # in nested blocks, sizeof only, in two functions), block-scope statics, string and compound literals used repeatedly
+    ("emit-once-objects", "int puts(const char *);\n"
+                          "int none(void) { return (int)sizeof __func__; }\n"
+                          "int once(void) { return __func__[0]; }\n"
+                          "int twice(int c) { if (c) { puts(__func__); } { { return __func__[1] + (int)sizeof __func__; } } }\n"
+                          "int thrice(int c) { while (c--) puts(__func__); puts(\"lit\"); puts(\"lit\"); return __func__[0] + (c ? __func__[2] : 0); }\n"
+                          "int stat(int c) { static int n; static const char *s = \"lit\"; n++; { static int n; n += c; } n++; return n + s[0] + (int[2]){1, c}[1] + (int[2]){1, c}[0]; }\n"),
     # wide arrays filled exactly by a wide literal (DataSize through the H6-lite sizes): top level, member, 2-D row
     ("wide-exact-fit", "unsigned short a[2] = u\"ab\"; unsigned b[1] = U\"a\"; struct { unsigned short s[2]; char c; } c = {u\"ab\", 1};\n"
                        "unsigned short d[2][2] = {u\"ab\", u\"c\"}; unsigned e[2][1] = {U\"a\", U\"b\"}; unsigned short f[3] = u\"ab\";\n"
@@ -805,10 +819,11 @@ int vf2(int n, ...) { va_list ap; long t = n; __builtin_va_start(ap, n); t += __
 int vg(double a, long b, ...) { va_list ap; int t; __builtin_va_start(ap, b); t = (int)a + (int)b + (int)__builtin_va_arg(ap, long); __builtin_va_end(ap); return t; }
 int vh(float a, _Bool b, long c, ...) { va_list ap; int t; __builtin_va_start(ap, c); t = (int)a + b + (int)c + (int)__builtin_va_arg(ap, double); __builtin_va_end(ap); return t; }
 int vz(int n, ...) { return n; }
+int fstr(const char *a) { return a[0]; }
 int fs(struct S a) { return a.m + a.c[1]; }
 struct O gso(int a) { struct O r = {{a, 2, {1, 2, 3}}, {a}, 3}; return r; }
 int fo(struct O a) { return a.in.m + a.h; }"""
-HELPER_DECLS = "int fi(int); double fd(double); struct S gs(int); int vf(int, ...); int vf2(int, ...); int vg(double, long, ...); int vh(float, _Bool, long, ...); int vz(int, ...); int fs(struct S); struct O gso(int); int fo(struct O);"
+HELPER_DECLS = "int fi(int); double fd(double); struct S gs(int); int vf(int, ...); int vf2(int, ...); int vg(double, long, ...); int vh(float, _Bool, long, ...); int vz(int, ...); int fstr(const char *); int fs(struct S); struct O gso(int); int fo(struct O);"
 MAIN_DEF = "int main(void) { int z = 0; struct S s = gs(1); return fn(1, 2, 3.0, s, &z) + vf(2, 1, 2, 3.0) + vg(1, 2, 3L) + vh(1, 2, 3, 4.0) + vz(5); }"
 
 
